@@ -615,7 +615,9 @@ def build_real_problem(case):
                                                        'no_flow',
                                                        'duct_average']),
                                    max_rings=3, empty_frac=0.2,
-                                   vel_range=(0.2, 6.0))
+                                   vel_range=(0.03, 6.0), shared_flow=0.5,
+                                   tdep=(rng.random() < 0.5),
+                                   coolant_pool=True)
         stress_core(rng, P, feats)
     unit = wl.choose(rng, ['m', 'm', 'cm', 'in', 'ft', 'mm'])
     feats['unit'] = unit
